@@ -865,6 +865,46 @@ def r7_window_end_inclusive(repo=None):
             and asg.lineno < n.lineno]
         if others:
             raise AnalysisError("%s: adjustment of the end index `%s` not recognised" % (SL, norm(ast.unparse(others[0]))[:80]))
+        # where does the bisect result go?  straight into the end of the returned slice (violation: positive evidence), or into a scan
+        # `next((k for k in range(<ke>, <n>) if <L>[k][0] != endtime), <n>)` - the first index after all entries at endtime
+        uses = [x for x in ast.walk(fn) if isinstance(x, ast.Name) and x.id == ke and isinstance(x.ctx, ast.Load)]
+        direct, scans, unknown = [], [], []
+        for u in uses:
+            par = parents.get(u)
+            if isinstance(par, ast.Call) and pyfront.call_name(par) == "slice" and len(par.args) >= 2 and par.args[1] is u:
+                direct.append(par)
+            elif isinstance(par, ast.Slice) and par.upper is u:
+                direct.append(par)
+            elif isinstance(par, ast.Tuple) and isinstance(parents.get(par), ast.Return):
+                direct.append(par)
+            elif isinstance(par, ast.Call) and pyfront.call_name(par) == "range" and par.args and par.args[0] is u:
+                gen = parents.get(parents.get(par))          # comprehension -> GeneratorExp
+                nx = parents.get(gen)
+                ok_scan = False
+                if isinstance(gen, ast.GeneratorExp) and isinstance(nx, ast.Call) and pyfront.call_name(nx) == "next" and len(nx.args) == 2 \
+                        and len(gen.generators) == 1 and len(gen.generators[0].ifs) == 1 and isinstance(gen.generators[0].target, ast.Name) \
+                        and isinstance(gen.elt, ast.Name) and gen.elt.id == gen.generators[0].target.id and len(par.args) == 2:
+                    kv = gen.generators[0].target.id
+                    cmp_ = list(pybool.compare_nodes(gen.generators[0].ifs[0]))
+                    stop_txt = norm(ast.unparse(par.args[1]))
+                    dflt_txt = norm(ast.unparse(nx.args[1]))
+                    lens = {"len(%s)" % L} | {t.targets[0].id for t in ast.walk(fn) if isinstance(t, ast.Assign) and isinstance(t.targets[0], ast.Name)
+                                              and norm(ast.unparse(t.value)) == "len(%s)" % L}
+                    if len(cmp_) == 1 and isinstance(cmp_[0][1], ast.NotEq) and {norm(ast.unparse(cmp_[0][0])), norm(ast.unparse(cmp_[0][2]))} == {
+                            "%s[%s][0]" % (L, kv), "endtime"} and stop_txt in lens and dflt_txt in lens \
+                            and isinstance(gen.generators[0].ifs[0], ast.Compare):
+                        ok_scan = True
+                (scans if ok_scan else unknown).append(par)
+            else:
+                unknown.append(par)
+        if scans and not direct and not unknown:
+            for sc in scans:
+                r.ok("%s:%s %s" % (m.rel, sc.lineno, SL), "next(k for k in range(%s, len) if %s[k][0] != endtime, len): the first index after every "
+                     "entry carrying the end timestamp" % (ke, L))
+            r.guard(1)
+            return r
+        if unknown or not direct:
+            raise AnalysisError("%s: use of the end index `%s` in `%s` not recognised" % (SL, ke, norm(ast.unparse((unknown or [asg])[0]))[:80]))
         r.violation(m.rel, SL, "%s = %s" % (ke, norm(ast.unparse(asg.value))),
                     "the end index is the first entry with time >= endtime and is never advanced over the entries whose time equals "
                     "endtime: the end of the window is exclusive", line=asg.lineno)
